@@ -1017,6 +1017,30 @@ func H_Lex() {
 	}
 }
 
+// H_Twin (C18): two lexer instances share no mutable state.
+func H_Twin() {
+	nb := vrt.Param("bytes", 2)
+	ia := make([]byte, nb)
+	ib := make([]byte, nb)
+	for i := 0; i < nb; i++ {
+		ia[i] = vrt.Byte(vrt.Name("a", i))
+		ib[i] = byte('a' + i) // fixed input for the second instance
+	}
+	var ta, tb []ref.LexTok
+	vrt.Twin(func() { _, ta, _ = hRun(ia, 2*nb+2) }, func() { _, tb, _ = hRun(ib, 2*nb+2) })
+	vrt.Assert(vrt.MonitorShared() == 0, "instances-share-no-mutable-state")
+	vrt.Assert(vrt.MonitorGlobalWrites() == 0, "no-writes-to-package-level-state")
+	_, tc, _ := hRun(ia, 2*nb+2)
+	vrt.Assert(len(tc) == len(ta), "same-result-as-sequential")
+	for i := range tc {
+		if i < len(ta) {
+			vrt.Assert(tc[i].Type == ta[i].Type && tc[i].Start == ta[i].Start && tc[i].Len == ta[i].Len, "same-result-as-sequential")
+		}
+	}
+	_ = tb
+	vrt.Reach("twin")
+}
+
 // H_Account (C11): termination and accounting for every byte.
 func H_Account() {
 	input := hInput()
